@@ -869,6 +869,13 @@ def r12_defval_decision_table(chk):
         fmt = s_.value.value if isinstance(s_.value, ast.Constant) else None
         pos, neg, unknown = path_atoms(s_.node)
         vals = [x for x in ir.record_stores(fn) if x.node is s_.node and x.key == ('value',)]
+        if not vals:
+            # value and format stored by neighbouring statements of the same block
+            par = getattr(s_.node, '_parent', None)
+            vals = [x for x in ir.record_stores(fn) if x.key == ('value',) and x.var == s_.var and
+                    getattr(x.node, '_parent', None) is par and
+                    [norm(t) for t, b in x.guards] == [norm(t) for t, b in s_.guards] and
+                    [b for t, b in x.guards] == [b for t, b in s_.guards]]
         val = vtext(vals[0].value) if vals else ''
         notation = 'N' if 'N' in pos else 'H' if 'H' in pos else 'B' if 'B' in pos else 'Q' if 'Q' in pos else 'label'
         problems = []
